@@ -529,6 +529,11 @@ def check_case(res, c, obs, exp, refa, binname):
             return False
         if r is not None and r != e and kind in ("range", "init") and all_ignored_quirk(r, e):
             # the one situation where the faithful model departs from the specification (C03_all_ignored_range_refuted)
+            if o != e:
+                what = describe(kind, line, o, e)
+                res.violation("%s:%s" % (kind, what[0]), "%s (%s build) after %d ops, '%s': %s" % (c.header(), binname, i, line, what[1]),
+                              dict(case, ops=c.ops[:i + 1]), short(e), short(o))
+                return False
             if o == e:
                 res.violation("range:all-ignored-simplices-listed", "%s (%s build) line %d '%s': after initialize_filtration(true) on a complex "
                               "whose simplices all have value +infinity the cache is empty, filtration_simplex_range() takes 'empty' for "
@@ -640,7 +645,9 @@ def check(ctx, replay=None):
     res = core.Result()
     if not getattr(ctx, "skip_proof", False):
         ctx.prove(["Extract_C03.vo"])
-    bins = ctx.build_many([("c03_drv.cpp", "tbb", ["-DGUDHI_USE_TBB"]), ("c03_drv.cpp", "seq", [])])
+    # three builds: TBB (debug checks on), no TBB (std::stable_sort), TBB release (-O2 -DNDEBUG: GUDHI_CHECK off)
+    bins = ctx.build_many([("c03_drv.cpp", "tbb", ["-DGUDHI_USE_TBB"]), ("c03_drv.cpp", "seq", []),
+                           ("c03_drv.cpp", "rel", ["-DGUDHI_USE_TBB", "-DNDEBUG"], "-O2")])
     orc = ctx.build_oracle("c03")
     hist_groups, large_groups = [], []
     if replay:
@@ -653,7 +660,7 @@ def check(ctx, replay=None):
         cases = corpus + gen
         # every case on the TBB build; on the sequential build every case except the duplicates of a thread sweep
         seq_cases = [c for c in cases if not (c.scen == "large" and c.threads not in (1, 4))]
-        plan = [("tbb", cases), ("seq", seq_cases)]
+        plan = [("tbb", cases), ("seq", seq_cases), ("rel", cases)]
     # the model and the specification do not depend on threads/build: evaluate once per distinct (vmin class, ops)
     uniq = {}
     for _, cs in plan:
@@ -676,7 +683,7 @@ def check(ctx, replay=None):
             res.count("build:" + binname)
             res.count("optset:" + c.optset)
             res.count("scenario:" + c.scen.split(":")[0])
-            if binname == "tbb":
+            if binname != "seq":
                 res.count("tbb-threads:%d" % c.threads)
             good = check_case(res, c, o, exp[k], refs[k], binname)
             res.traces_validated += len(c.ops)
@@ -701,7 +708,7 @@ def check(ctx, replay=None):
         return tuple(a.partition(" # ")[0] for l, a in zip(c.ops, o[1]) if l.split()[0] in ("range", "init"))
     for g in hist_groups:
         rs = {}
-        for binname in ("tbb", "seq"):
+        for binname in ("tbb", "seq", "rel"):
             for c in g:
                 r = ranges_of(binname, c)
                 if r is not None:
@@ -714,7 +721,7 @@ def check(ctx, replay=None):
                           lb[0][1].to_json(), short(ra), short(rb), other_history=la[0][1].to_json())
     for g in large_groups:
         rs = {}
-        for binname in ("tbb", "seq"):
+        for binname in ("tbb", "seq", "rel"):
             for c in g:
                 r = ranges_of(binname, c)
                 if r is not None:
